@@ -16,6 +16,20 @@ package engine
 //@ props C13 C08
 //@ ghost eHeld int = 0
 //@ ghost cHeld int = 0
+// lock order: the engine lock comes before a controller lock and neither is re-entered, so no
+// method that takes the engine lock may be entered while this one holds a lock
+//@ optional site (*engine.ControllerEngine).Start(_, _, $eo...) as reenter-Start
+//@   assert [C13:no-engine-method-is-entered-while-a-lock-is-held] eHeld == 0 && cHeld == 0
+//@ optional site (*engine.ControllerEngine).Stop(_, _, _) as reenter-Stop
+//@   assert [C13:no-engine-method-is-entered-while-a-lock-is-held] eHeld == 0 && cHeld == 0
+//@ optional site (*engine.ControllerEngine).IsRunning(_, _) as reenter-IsRunning
+//@   assert [C13:no-engine-method-is-entered-while-a-lock-is-held] eHeld == 0 && cHeld == 0
+//@ optional site (*engine.ControllerEngine).StartWatches(_, _, $ews...) as reenter-StartWatches
+//@   assert [C13:no-engine-method-is-entered-while-a-lock-is-held] eHeld == 0 && cHeld == 0
+//@ optional site (*engine.ControllerEngine).GetWatches(_, _) as reenter-GetWatches
+//@   assert [C13:no-engine-method-is-entered-while-a-lock-is-held] eHeld == 0 && cHeld == 0
+//@ optional site (*engine.ControllerEngine).StopWatches(_, _, _, $ewi...) as reenter-StopWatches
+//@   assert [C13:no-engine-method-is-entered-while-a-lock-is-held] eHeld == 0 && cHeld == 0
 //@ site (*sync.RWMutex).Lock($m) as e.mx.Lock
 //@   where $m == &e.mx
 //@   assert [C13:engine-lock-taken-first] eHeld == 0 && cHeld == 0
@@ -95,6 +109,20 @@ package engine
 //@ props C13
 //@ ghost eHeld int = 0
 //@ ghost cHeld int = 0
+// lock order: the engine lock comes before a controller lock and neither is re-entered, so no
+// method that takes the engine lock may be entered while this one holds a lock
+//@ optional site (*engine.ControllerEngine).Start(_, _, $eo...) as reenter-Start
+//@   assert [C13:no-engine-method-is-entered-while-a-lock-is-held] eHeld == 0 && cHeld == 0
+//@ optional site (*engine.ControllerEngine).Stop(_, _, _) as reenter-Stop
+//@   assert [C13:no-engine-method-is-entered-while-a-lock-is-held] eHeld == 0 && cHeld == 0
+//@ optional site (*engine.ControllerEngine).IsRunning(_, _) as reenter-IsRunning
+//@   assert [C13:no-engine-method-is-entered-while-a-lock-is-held] eHeld == 0 && cHeld == 0
+//@ optional site (*engine.ControllerEngine).StartWatches(_, _, $ews...) as reenter-StartWatches
+//@   assert [C13:no-engine-method-is-entered-while-a-lock-is-held] eHeld == 0 && cHeld == 0
+//@ optional site (*engine.ControllerEngine).GetWatches(_, _) as reenter-GetWatches
+//@   assert [C13:no-engine-method-is-entered-while-a-lock-is-held] eHeld == 0 && cHeld == 0
+//@ optional site (*engine.ControllerEngine).StopWatches(_, _, _, $ewi...) as reenter-StopWatches
+//@   assert [C13:no-engine-method-is-entered-while-a-lock-is-held] eHeld == 0 && cHeld == 0
 //@ optional site (*sync.RWMutex).Lock($m) as e.mx.Lock
 //@   where $m == &e.mx
 //@   assert [C13:engine-lock-taken-first] eHeld == 0 && cHeld == 0
@@ -155,6 +183,20 @@ package engine
 //@ props C13
 //@ ghost eHeld int = 0
 //@ ghost cHeld int = 0
+// lock order: the engine lock comes before a controller lock and neither is re-entered, so no
+// method that takes the engine lock may be entered while this one holds a lock
+//@ optional site (*engine.ControllerEngine).Start(_, _, $eo...) as reenter-Start
+//@   assert [C13:no-engine-method-is-entered-while-a-lock-is-held] eHeld == 0 && cHeld == 0
+//@ optional site (*engine.ControllerEngine).Stop(_, _, _) as reenter-Stop
+//@   assert [C13:no-engine-method-is-entered-while-a-lock-is-held] eHeld == 0 && cHeld == 0
+//@ optional site (*engine.ControllerEngine).IsRunning(_, _) as reenter-IsRunning
+//@   assert [C13:no-engine-method-is-entered-while-a-lock-is-held] eHeld == 0 && cHeld == 0
+//@ optional site (*engine.ControllerEngine).StartWatches(_, _, $ews...) as reenter-StartWatches
+//@   assert [C13:no-engine-method-is-entered-while-a-lock-is-held] eHeld == 0 && cHeld == 0
+//@ optional site (*engine.ControllerEngine).GetWatches(_, _) as reenter-GetWatches
+//@   assert [C13:no-engine-method-is-entered-while-a-lock-is-held] eHeld == 0 && cHeld == 0
+//@ optional site (*engine.ControllerEngine).StopWatches(_, _, _, $ewi...) as reenter-StopWatches
+//@   assert [C13:no-engine-method-is-entered-while-a-lock-is-held] eHeld == 0 && cHeld == 0
 //@ optional site (*sync.RWMutex).Lock($m) as e.mx.Lock
 //@   where $m == &e.mx
 //@   assert [C13:engine-lock-taken-first] eHeld == 0 && cHeld == 0
@@ -216,6 +258,20 @@ package engine
 //@ props C13
 //@ ghost eHeld int = 0
 //@ ghost cHeld int = 0
+// lock order: the engine lock comes before a controller lock and neither is re-entered, so no
+// method that takes the engine lock may be entered while this one holds a lock
+//@ optional site (*engine.ControllerEngine).Start(_, _, $eo...) as reenter-Start
+//@   assert [C13:no-engine-method-is-entered-while-a-lock-is-held] eHeld == 0 && cHeld == 0
+//@ optional site (*engine.ControllerEngine).Stop(_, _, _) as reenter-Stop
+//@   assert [C13:no-engine-method-is-entered-while-a-lock-is-held] eHeld == 0 && cHeld == 0
+//@ optional site (*engine.ControllerEngine).IsRunning(_, _) as reenter-IsRunning
+//@   assert [C13:no-engine-method-is-entered-while-a-lock-is-held] eHeld == 0 && cHeld == 0
+//@ optional site (*engine.ControllerEngine).StartWatches(_, _, $ews...) as reenter-StartWatches
+//@   assert [C13:no-engine-method-is-entered-while-a-lock-is-held] eHeld == 0 && cHeld == 0
+//@ optional site (*engine.ControllerEngine).GetWatches(_, _) as reenter-GetWatches
+//@   assert [C13:no-engine-method-is-entered-while-a-lock-is-held] eHeld == 0 && cHeld == 0
+//@ optional site (*engine.ControllerEngine).StopWatches(_, _, _, $ewi...) as reenter-StopWatches
+//@   assert [C13:no-engine-method-is-entered-while-a-lock-is-held] eHeld == 0 && cHeld == 0
 //@ optional site (*sync.RWMutex).Lock($m) as e.mx.Lock
 //@   where $m == &e.mx
 //@   assert [C13:engine-lock-taken-first] eHeld == 0 && cHeld == 0
@@ -287,6 +343,20 @@ package engine
 //@ props C13
 //@ ghost eHeld int = 0
 //@ ghost cHeld int = 0
+// lock order: the engine lock comes before a controller lock and neither is re-entered, so no
+// method that takes the engine lock may be entered while this one holds a lock
+//@ optional site (*engine.ControllerEngine).Start(_, _, $eo...) as reenter-Start
+//@   assert [C13:no-engine-method-is-entered-while-a-lock-is-held] eHeld == 0 && cHeld == 0
+//@ optional site (*engine.ControllerEngine).Stop(_, _, _) as reenter-Stop
+//@   assert [C13:no-engine-method-is-entered-while-a-lock-is-held] eHeld == 0 && cHeld == 0
+//@ optional site (*engine.ControllerEngine).IsRunning(_, _) as reenter-IsRunning
+//@   assert [C13:no-engine-method-is-entered-while-a-lock-is-held] eHeld == 0 && cHeld == 0
+//@ optional site (*engine.ControllerEngine).StartWatches(_, _, $ews...) as reenter-StartWatches
+//@   assert [C13:no-engine-method-is-entered-while-a-lock-is-held] eHeld == 0 && cHeld == 0
+//@ optional site (*engine.ControllerEngine).GetWatches(_, _) as reenter-GetWatches
+//@   assert [C13:no-engine-method-is-entered-while-a-lock-is-held] eHeld == 0 && cHeld == 0
+//@ optional site (*engine.ControllerEngine).StopWatches(_, _, _, $ewi...) as reenter-StopWatches
+//@   assert [C13:no-engine-method-is-entered-while-a-lock-is-held] eHeld == 0 && cHeld == 0
 //@ optional site (*sync.RWMutex).Lock($m) as e.mx.Lock
 //@   where $m == &e.mx
 //@   assert [C13:engine-lock-taken-first] eHeld == 0 && cHeld == 0
@@ -351,6 +421,20 @@ package engine
 //@ props C13
 //@ ghost eHeld int = 0
 //@ ghost cHeld int = 0
+// lock order: the engine lock comes before a controller lock and neither is re-entered, so no
+// method that takes the engine lock may be entered while this one holds a lock
+//@ optional site (*engine.ControllerEngine).Start(_, _, $eo...) as reenter-Start
+//@   assert [C13:no-engine-method-is-entered-while-a-lock-is-held] eHeld == 0 && cHeld == 0
+//@ optional site (*engine.ControllerEngine).Stop(_, _, _) as reenter-Stop
+//@   assert [C13:no-engine-method-is-entered-while-a-lock-is-held] eHeld == 0 && cHeld == 0
+//@ optional site (*engine.ControllerEngine).IsRunning(_, _) as reenter-IsRunning
+//@   assert [C13:no-engine-method-is-entered-while-a-lock-is-held] eHeld == 0 && cHeld == 0
+//@ optional site (*engine.ControllerEngine).StartWatches(_, _, $ews...) as reenter-StartWatches
+//@   assert [C13:no-engine-method-is-entered-while-a-lock-is-held] eHeld == 0 && cHeld == 0
+//@ optional site (*engine.ControllerEngine).GetWatches(_, _) as reenter-GetWatches
+//@   assert [C13:no-engine-method-is-entered-while-a-lock-is-held] eHeld == 0 && cHeld == 0
+//@ optional site (*engine.ControllerEngine).StopWatches(_, _, _, $ewi...) as reenter-StopWatches
+//@   assert [C13:no-engine-method-is-entered-while-a-lock-is-held] eHeld == 0 && cHeld == 0
 //@ site (*sync.RWMutex).Lock($m) as e.mx.Lock
 //@   where $m == &e.mx
 //@   assert [C13:engine-lock-taken-first] eHeld == 0 && cHeld == 0
